@@ -99,7 +99,7 @@ PreSlotClauses(old, rec, zeroL) ==
   \cup (IF rec.rL_lim >= zeroL THEN {} ELSE {"C05.LimitNonNegative"})
 
 (* Post: one record per active slot after user_post.  pre = the Pre record of the slot. *)
-PostSlotClauses(pre, rec, twom, zero) ==
+PostSlotClauses(pre, rec, twom, zero, mscfield) ==
   LET errored == pre.st = "errored"      \* not a step: the pseudo-step that kills an errored track
       failure == rec.act = "physics-failure" \/ errored
       w0 == W(twom, pre.pt, pre.Eq)
@@ -121,7 +121,12 @@ PostSlotClauses(pre, rec, twom, zero) ==
   \cup (IF rec.rE_E1 <= pre.rE_E0 THEN {} ELSE {"C05.EnergyMonotone"})
   \cup (IF failure \/ rec.rL_step > zero.L \/ (stopped /\ rec.rL_step = zero.L) THEN {} ELSE {"C05.StepPositive"})
   \cup (IF failure \/ rec.rL_step <= pre.rL_lim THEN {} ELSE {"C05.StepWithinLimit"})
-  \cup (IF failure \/ rec.rL_chordlo <= rec.rL_step THEN {} ELSE {"C05.StepNotShorterThanChord"})
+  \* named deviation F-MSC-1: with Urban MSC *and* a magnetic field the lateral displacement is added
+  \* to the end of the curved path and the straight-line displacement may exceed the reported true
+  \* path length slightly; scoped to runs with both switched on and an excess below 2%
+  \cup (IF failure \/ rec.rL_chordlo <= rec.rL_step THEN {}
+        ELSE IF mscfield /\ rec.rL_chordlo2 <= rec.rL_step THEN {"C05.KNOWN.MscFieldDisplacementExceedsStep"}
+        ELSE {"C05.StepNotShorterThanChord"})
   \cup (IF rec.volo = -1 \/ rec.vol = rec.volo THEN {} ELSE {"C05.VolumeMatchesPosition@Post"})
   \cup (IF rec.vol = pre.vol \/ rec.act = "geo-boundary" THEN {} ELSE {"C05.VolumeChangeOnlyAtBoundary"})
   \cup (IF rec.out => (rec.st = "killed" /\ rec.act = "geo-boundary") THEN {} ELSE {"C05.OutsideIsKilledAtBoundary"})
